@@ -11,9 +11,7 @@ def modelled : List String := [
   "_td.py:TensorDict._parse_batch_size",
   "base.py:TensorDictBase._items_list",
   "base.py:TensorDictBase._values_list",
-  "utils.py:_check_keys",
   "utils.py:_getitem_batch_size",
-  "utils.py:_parse_to",
   "utils.py:_unravel_key_to_tuple",
   "utils.py:unravel_key",
   "utils.py:unravel_key_list",
@@ -55,8 +53,10 @@ def differentialOnly : List String := [
   "tensorclass.py:_wrap_td_method.wrapped_func_setter",
   "utils.py:_ContextManager.get_mode",
   "utils.py:_ContextManager.set_mode",
+  "utils.py:_check_keys",
   "utils.py:_is_non_tensor",
   "utils.py:_is_tensorclass",
+  "utils.py:_parse_to",
   "utils.py:_pass_through_cls",
   "utils.py:cache",
   "utils.py:cache.newfun"]
